@@ -137,7 +137,9 @@ impl Model for BW {
             }
             "query" => {
                 let (gf, gv) = (l["gf"].as_str().unwrap(), l["gv"].as_str().unwrap());
-                let mut e = mk_engine(&self.rules, l["depth"].as_u64().unwrap() as usize, l["strat"].as_str().unwrap(), l["maxsol"].as_u64().unwrap() as usize, true);
+                // a fresh engine per query: memoisation on or off must not matter (alternates with the number of rules and the depth)
+                let memo = (self.rules.len() + l["depth"].as_u64().unwrap() as usize) % 2 == 0;
+                let mut e = mk_engine(&self.rules, l["depth"].as_u64().unwrap() as usize, l["strat"].as_str().unwrap(), l["maxsol"].as_u64().unwrap() as usize, memo);
                 let mut facts = mk_facts(&self.facts);
                 let (verdict, holds, unchanged) = run_query(&mut e, &mut facts, gf, gv);
                 let may = l["may"].as_bool().unwrap();
